@@ -109,6 +109,13 @@ def plans_c16(prop, tier, seed):
         # a third, empty replica receives a forked source with unbalanced branches in one bounded join
         dict(name="exhJB3", consts=base_consts(NR=3, Writer0=[1, 2, 3], MaxE=4, MaxOps=6, Sizes={1, 2, 3}),
              max_scripts=25000 if q else 300000),
+        # orderings under which a flat sort of the entries is NOT the linearisation: first-write-wins, and two devices of one
+        # writer (equal clocks, ties) - the cut must be taken from the linearisation the unbounded merge produces
+        dict(name="exhJBfww", consts=base_consts(NR=2, Writer0=[1, 2], Lid=["X"] * 2, Denied=[set()] * 2, Fn="FWW",
+                                                 MaxE=4, MaxOps=5 if q else 6, Sizes={0, 1, 2, 3})),
+        dict(name="twinJB", mode="all", consts=base_consts(NR=3, Writer0=[1, 1, 1], MaxE=8, MaxOps=8, Sizes={1, 2, 3, 4}),
+             scripts=[[["A", 1, 1]] * 3 + [["A", 2, 1]] * 2 + [["J", 3, 2], ["JB", 3, 1, n]] for n in (1, 2, 3, 4)]
+                     + [[["A", 1, 1]] * 2 + [["A", 2, 1]] * 3 + [["J", 3, 1], ["JB", 3, 2, n]] for n in (1, 2, 3)]),
         dict(name="exhJBhash", consts=base_consts(NR=2, Writer0=[1, 1], Lid=["X"] * 2, Denied=[set()] * 2, Fn="HASH",
                                                   MaxE=4 if q else 5, MaxOps=5 if q else 7, Sizes={0, 1, 2, 3, 6})),
     ]
@@ -171,6 +178,12 @@ def plans_c17(prop, tier, seed):
              consts=base_consts(NR=2, Writer0=[1, 1], Lid=["X"] * 2, Denied=[set(), {1}], MaxE=4, MaxOps=5 if q else 6,
                                 PCs={1}, PubOn={1}),
              max_scripts=4000 if q else 40000),
+        # the same twins, nobody refused, but the store refuses individual writes (entry and manifest blocks): a block one
+        # replica failed to write is written by whoever produces it next
+        dict(name="twinFault", audit="c17", mode="all", payload="const",
+             consts=base_consts(NR=2, Writer0=[1, 1], Lid=["X"] * 2, Denied=[set(), set()], MaxE=3, MaxOps=5 if q else 6,
+                                PCs={1}, PubOn={1}, WriteFaults=True),
+             max_scripts=5000 if q else 50000),
         dict(name="crash3", audit="c17", mode="all",
              consts=base_consts(MaxE=4 if q else 5, MaxOps=6 if q else 8, PCs={1, 4}, PubOn={1}, Fn="HASH"),
              max_scripts=1500 if q else 30000),
